@@ -403,7 +403,7 @@ Definition validate_src_host (s : st) : outcome :=
   else
     match parse_host (p_src_type p) (p_src_raw p) with
     | HBad => slow ScmpParameterProblem CodeInvalidSourceAddress 0 s
-    | HSvc _ => Stop Panic      (* src.IP() on a service address *)
+    | HSvc _ => Ok s            (* only IP addresses are checked for being v4-mapped *)
     | HIP ip => if is_4in6 ip then slow ScmpParameterProblem CodeInvalidSourceAddress 0 s else Ok s
     end.
 
@@ -668,13 +668,14 @@ Definition c01_ok macq (c : cfg) (now : N) (ing : ingress) (p : pkt) (r : result
     | _, _ => false
     end
   | SlowPath (SpScmp ty code ptr) _ out =>
-    (* an InvalidHopFieldMAC / PathExpired answer designates a hop field of the packet,
-       and that hop field really is invalid / expired *)
+    (* an InvalidHopFieldMAC / PathExpired answer designates a hop field of the received
+       packet, and that hop field really is invalid / expired (for the SegID accumulator and
+       timestamp of the info field the router was looking at) *)
     if (ty =? ScmpParameterProblem) && ((code =? CodeInvalidHopFieldMAC) || (code =? CodePathExpired))
     then
       let k := p_curr_hf out in
       (ptr =? hop_off p k) && (k <? num_hops p) &&
-      match nthN (p_infos out) (p_curr_inf out), nthN (p_hops out) k with
+      match nthN (p_infos out) (p_curr_inf out), nthN (p_hops p) k with
       | Some i, Some h =>
         if code =? CodePathExpired then expired now i h
         else match macq (i_segid i) (i_ts i) (h_exp h) (h_in h) (h_eg h) with
